@@ -12,6 +12,7 @@ CFG = {
         'bitword.FromStr/large': 'bitword.BitWord[n].FromStr',
         'bitword.ToStr/large': 'bitword.BitWord[n].ToStr',
         'bitword.FromStr/cmp': 'bytes.Compare(bitword.BitWord[n].FromStr(a), bitword.BitWord[n].FromStr(b))',
+        'bitword.FromStr/ToStr': 'bitword.BitWord[n].FromStr(bitword.BitWord[n].ToStr(ws))',
         'bitword.Get/any': 'bitword.BitWord[n].Get',
         'bitword.FirstDiff/any': 'bitword.BitWord[n].FirstDiff',
         'bitword.ToStr/any': 'bitword.BitWord[n].ToStr'},
@@ -29,7 +30,7 @@ CFG = {
          '+ FromStrs/ToStrs on all lists of length <= 3 over four elements (equal neighbours, empty elements); '
          '+ widened: FromStr/cmp (sign of bytes.Compare of the word slices = sign of comparing the strings) on all pairs of '
          'strings of length <= 1 over the 7-byte alphabet, a sample (thorough: all) of the pairs of length <= 2, random pairs '
-         'sharing a prefix.  Only with VERIF_C08_WIDE=1 (behaviour OUTSIDE the statement, proved for the model as C08_Get_any / '
+         'sharing a prefix; FromStr/ToStr (= ws plus the zero words completing the last byte) on every ToStr case of up to 4096 words.  Only with VERIF_C08_WIDE=1 (behaviour OUTSIDE the statement, proved for the model as C08_Get_any / '
          'C08_FirstDiff_any / C08_ToStr_any and confirmed on the real code with that flag, but not part of the default run so that a '
          'rewrite that keeps the in-domain behaviour stays silent): Get at every index from below 0 to beyond the end, FirstDiff '
          'with negative from and end < -1, ToStr on arbitrary bytes. A case is non-trivial when its string/word list is non-empty (FirstDiff: '
